@@ -60,7 +60,7 @@ func genTuning(t *rapid.T) semkit.Tuning {
 
 func genC02(t *rapid.T) C02Case {
 	o := worldOpts()
-	w := gen.GenWorld(t, o)
+	w := gen.AnyWorld(t, o)
 	c := C02Case{World: w, Checks: genRequests(t, w, o, 2, 5)}
 	nl := rapid.IntRange(1, 2).Draw(t, "nLists")
 	for i := 0; i < nl; i++ {
